@@ -99,6 +99,31 @@ def productive_grammars(n, seed):
     return out
 
 
+def big_grammars(n, seed):
+    """6-9 rules over six non-terminals: a push under the start symbol, two alternative consumption rules leading to the
+    same non-terminal, duplication below; the marking needs several passes and several marked sets per non-terminal."""
+    rnd = random.Random(seed)
+    NT, IDX = ["S", "A", "B", "C", "D", "E"], ["f", "g"]
+    out = []
+    for _ in range(n):
+        f, g = rnd.choice(IDX), rnd.choice(IDX)
+        x, b, c1, c2, d = rnd.sample(NT[1:], 5)
+        rules = [["push", "S", x, g], ["pop", g, x, "E" if rnd.random() < 0.5 else d], ["push", x, b, f] if rnd.random() < 0.6 else ["dup", x, b, b],
+                 ["dup", b, c1, c2] if rnd.random() < 0.5 else ["dup", b, c1, c1], ["pop", f, c1, d], ["pop", f, c2, d],
+                 ["end", d, "a"]]
+        if rnd.random() < 0.5:
+            rules.append(["dup", rnd.choice(NT), rnd.choice(NT), rnd.choice(NT)])
+        if rnd.random() < 0.5:
+            rules.append(["end", "E", "a"])
+        uniq = []
+        for r in rules:
+            if r not in uniq:
+                uniq.append(r)
+        rnd.shuffle(uniq)
+        out.append(uniq)
+    return out
+
+
 def generate(tier, seed, work, stats):
     rnd = random.Random(seed)
     cases = []
@@ -113,6 +138,8 @@ def generate(tier, seed, work, stats):
                 cases.append(dict(kind="ig", rules=rules, nts=list(nts), idx=list(idx), maxperm=maxperm, family="IGGen"))
     for rules in random_grammars(300 if tier == "quick" else 5000, seed + 17):
         cases.append(dict(kind="ig", rules=rules, nts=["S", "A", "B", "C"], idx=["f", "g"], maxperm=6, family="random"))
+    for rules in big_grammars(400 if tier == "quick" else 6000, seed + 19):
+        cases.append(dict(kind="ig", rules=rules, nts=["S", "A", "B", "C", "D", "E"], idx=["f", "g"], maxperm=10, family="random-big"))
     for rules in productive_grammars(500 if tier == "quick" else 8000, seed + 18):
         cases.append(dict(kind="ig", rules=rules, nts=["S", "A", "B", "C"], idx=["f", "g"], maxperm=24, family="random-productive"))
     # intersections with automata of the FA generator (terminal "a")
